@@ -104,7 +104,7 @@ def length_fields(m, msg, vals, image, owner):
 def main():
     rep = Report("C06", "fault_enumeration")
     quick = rep.tier == "quick"
-    schemas = codec.all_schemas(rep.tier, rep.seed, 2, 25)
+    schemas = codec.all_schemas(rep.tier, rep.seed, 2, 60)
     if quick:
         schemas = [s for s in schemas if not s.name.endswith("_be") or s.name == "layout_be"]
     cfgs = [("unchecked", build.Cfg("g++", "17", "plain", defs=("SBEPP_DISABLE_ASSERTS", "VRT_STEP_COUNTER"),
@@ -118,7 +118,7 @@ def main():
     if not quick:
         cfgs.append(("unchecked", build.Cfg("g++", "23", "plain", defs=("SBEPP_DISABLE_ASSERTS", "VRT_STEP_COUNTER"),
                                             extra=("-O1", "-fsanitize-coverage=trace-pc"))))
-    ncorrupt = 30 if quick else 400
+    ncorrupt = 30 if quick else 3000
     rep.rule("per message and per top-level group of the covering corpus and seeded random schemas: a well-formed image "
              "with every group non-empty; every truncation length 0..full+2; every blockLength/numInGroup/length "
              "occurrence overwritten with {0,1,fit-1,fit,fit+1,type max,random} x n in {full, full-1, full+1, header "
